@@ -3,7 +3,8 @@ import ScriggoV.Model.CancelCode
   `facts`                     the regenerated cancellation facts
   `predict <prog> <events>`   runs the machine of Model/Cancel.lean with the facts of the code;
       prog   = `,`-separated: c compute, j<t> jump, r recv, s send, l0/l1 select without/with
-               default, g range over channel, n<k> native, o<t> go, h halt
+               default, g range over channel, n<k> native, o<t> go, h halt,
+               b<t> native function calling the Scriggo function at t once, B<t> again and again
       events = `,`-separated: s<i> step of VM i (operation not ready), S<i> step (ready),
                c cancel, w watcher
       answer = `ok <none|ctxErr|own> <live VMs>` -/
@@ -21,6 +22,8 @@ def parseInstr (s : String) : Option Instr :=
   | ['g'] => some .rangeChan
   | 'n' :: t => (String.ofList t).toNat?.map .native
   | 'o' :: t => (String.ofList t).toNat?.map .go
+  | 'b' :: t => (String.ofList t).toNat?.map (fun n => .callback n false)
+  | 'B' :: t => (String.ofList t).toNat?.map (fun n => .callback n true)
   | ['h'] => some .halt
   | _ => none
 
@@ -44,7 +47,7 @@ def handle : List String → Option String
   | ["facts"] =>
     let F := factsOfCode
     let ops := ",".intercalate (ScriggoV.Gen.Blocking.blockingOps.map (·.op))
-    pure s!"ok loophead={F.loopHead} recv={F.recvDone} send={F.sendDone} select={F.selectDone} range={F.rangeDone} stopsets={F.stopSetsFlag} reread={ScriggoV.Gen.Blocking.rereadsDoneAfterFinish} ops={ops}"
+    pure s!"ok loophead={F.loopHead} recv={F.recvDone} send={F.sendDone} select={F.selectDone} range={F.rangeDone} stopsets={F.stopSetsFlag} epilogue={F.epilogue} reread={ScriggoV.Gen.Blocking.rereadsDoneAfterFinish} ops={ops}"
   | ["predict", prog, evs] => do
     let p ← parseList parseInstr prog
     let es ← parseList parseEv evs
